@@ -1,8 +1,39 @@
 import NaijaVerif.Driver.Pool
+import NaijaVerif.Driver.AstEcho
+import NaijaVerif.Driver.Bump
+import NaijaVerif.Driver.Strs
+import NaijaVerif.Driver.ReadLine
+import NaijaVerif.Driver.Proc
+import NaijaVerif.Driver.Limits
+import NaijaVerif.Driver.Capture
+import NaijaVerif.Driver.Cli
+import NaijaVerif.Driver.Lex
+import NaijaVerif.Driver.Parse
+import NaijaVerif.Driver.Resolve
+import NaijaVerif.Driver.Run
+import NaijaVerif.Driver.Plan
+import NaijaVerif.Driver.Mem
+import NaijaVerif.Driver.Depth
 
+/-- `nvdriver <family>`: answer request lines from stdin, one answer line per request. -/
 def main (args : List String) : IO UInt32 := do
   match args with
   | ["pool"] => NaijaVerif.Driver.PoolD.main; return 0
+  | ["astio"] => NaijaVerif.Driver.AstEchoD.main; return 0
+  | ["bump"] => NaijaVerif.Driver.BumpD.main; return 0
+  | ["strs"] => NaijaVerif.Driver.StrsD.main; return 0
+  | ["readline"] => NaijaVerif.Driver.ReadLineD.main; return 0
+  | ["proc"] => NaijaVerif.Driver.ProcD.main; return 0
+  | ["limits"] => NaijaVerif.Driver.LimitsD.main; return 0
+  | ["capture"] => NaijaVerif.Driver.CaptureD.main; return 0
+  | ["cli"] => NaijaVerif.Driver.CliD.main; return 0
+  | ["lex"] => NaijaVerif.Driver.LexD.main; return 0
+  | ["parse"] => NaijaVerif.Driver.ParseD.main; return 0
+  | ["resolve"] => NaijaVerif.Driver.ResolveD.main; return 0
+  | ["run"] => NaijaVerif.Driver.RunD.main; return 0
+  | ["plan"] => NaijaVerif.Driver.PlanD.main; return 0
+  | ["mem"] => NaijaVerif.Driver.MemD.main; return 0
+  | ["depth"] => NaijaVerif.Driver.DepthD.main; return 0
   | _ =>
-    IO.eprintln "usage: nvdriver <family>   (pool)"
+    IO.eprintln "usage: nvdriver <family>"
     return 2
